@@ -124,6 +124,7 @@ func sampleTyped(rng *rand.Rand, pkg CorpusPkg, mode Mode, i int) CScenario {
 		CustomNF: rng.Intn(2) == 0,
 		// a third of the scenarios: the handler answers from canned response objects shared between requests
 		SharedResp: rng.Intn(3) == 0,
+		Literals:   routeLiterals(pkg),
 	}
 	switch rng.Intn(4) {
 	case 0:
@@ -218,6 +219,42 @@ func sampleTyped(rng *rand.Rand, pkg CorpusPkg, mode Mode, i int) CScenario {
 		sc.Tasks = append(sc.Tasks, calls)
 	}
 	return sc
+}
+
+// routeLiterals: the literal segments of a package's path templates (at most 12, the shortest first: a short literal
+// is the likelier prefix of a value).
+func routeLiterals(pkg CorpusPkg) []string {
+	seen := map[string]bool{}
+	var out []string
+	for _, r := range pkg.Routes {
+		for _, seg := range strings.Split(r.Path, "/") {
+			if seg == "" || strings.ContainsAny(seg, "{}") || seen[seg] {
+				continue
+			}
+			ok := true
+			for _, c := range seg {
+				if !(c >= 'a' && c <= 'z' || c >= '0' && c <= '9') {
+					ok = false
+				}
+			}
+			// (short and made of the core domain's own characters: with one to three more characters the value stays
+			// inside what the deliverable lists were learned with - texts of up to eight lower-case letters and digits)
+			if ok && len(seg) <= 5 {
+				seen[seg] = true
+				out = append(out, seg)
+			}
+		}
+	}
+	sort.Slice(out, func(i, j int) bool {
+		if len(out[i]) != len(out[j]) {
+			return len(out[i]) < len(out[j])
+		}
+		return out[i] < out[j]
+	})
+	if len(out) > 12 {
+		out = out[:12]
+	}
+	return out
 }
 
 // ---- rules
